@@ -4,6 +4,11 @@
 //!   case id=<n> keys=<K> dmax=<D> [uids=desc]
 //!   mut s=<site> d=<date> r=<room> [new=1] [adm=<ulist>] [grp=<g>,<g>] [g<g>.u=<ulist>] [g<g>.ua=<ulist>] [g<g>.r=<rlist>]
 //!        ulist: `k+`|`k-`|`k` comma separated (`k` = enabled omitted); rlist: `e:s:a` comma separated
+//!   cmut s=<site> d=<date> r=<room> items=<item>;<item>;...   2..8 updates of one room sent WITHOUT awaiting in
+//!        between (one task each), then all awaited; item: `<g>.r.<e:s:a>` | `<g>.u.<k±>` | `<g>.ua.<k±>` | `a.<k±>`;
+//!        the groups exist, the (list, key) pairs are distinct, the caller is not named in an `a`/`ua` item (the
+//!        verdict of each update then does not depend on the order the service handles them in);
+//!        output: the verdicts in item order, comma separated
 //!   obs s=<site> r=<room>
 //!   restart s=<site>
 //!   sync from=<site> to=<site> r=<room>
@@ -337,6 +342,98 @@ impl World {
             }
             Err(e) => format!("err:{}", class(&e)),
         }
+    }
+
+    /// the `mut` tokens of the items of a `cmut` line (None = malformed)
+    pub fn cmut_items(kv: &Kv, caller: u64, groups: &BTreeMap<(u64, u64), Uid>) -> Option<Vec<Kv>> {
+        let (s, d, r) = (kv.get("s")?, kv.get("d")?, get_u(kv, "r")?);
+        let mut seen: Vec<(String, u64)> = vec![];
+        let mut res = vec![];
+        for item in kv.get("items")?.split(';') {
+            let parts: Vec<&str> = item.splitn(3, '.').collect();
+            let mut m: Kv = HashMap::new();
+            m.insert("s".into(), s.clone());
+            m.insert("d".into(), d.clone());
+            m.insert("r".into(), r.to_string());
+            let (list, elem) = match parts.as_slice() {
+                ["a", elem] => {
+                    m.insert("adm".into(), elem.to_string());
+                    ("adm".to_string(), *elem)
+                }
+                [g, kind, elem] if matches!(*kind, "r" | "u" | "ua") => {
+                    let gi = g.parse::<u64>().ok()?;
+                    if gi.to_string() != *g || !groups.contains_key(&(r, gi)) {
+                        return None;
+                    }
+                    m.insert("grp".into(), g.to_string());
+                    m.insert(format!("g{}.{}", g, kind), elem.to_string());
+                    (format!("g{}.{}", g, kind), *elem)
+                }
+                _ => return None,
+            };
+            let key = if list.ends_with(".r") {
+                let l = parse_rlist(elem).filter(|l| l.len() == 1 && !elem.contains(','))?;
+                l[0].0 as u64
+            } else {
+                let l = parse_ulist(elem).filter(|l| l.len() == 1 && !elem.contains(','))?;
+                if l[0].0 == caller && (list == "adm" || list.ends_with(".ua")) {
+                    return None;
+                }
+                l[0].0
+            };
+            if seen.contains(&(list.clone(), key)) {
+                return None;
+            }
+            seen.push((list, key));
+            res.push(m);
+        }
+        if res.len() < 2 || res.len() > 8 {
+            return None;
+        }
+        Some(res)
+    }
+
+    /// several updates of one room in flight at once: every update is sent from its own task, none waits for another
+    pub async fn op_cmut(&mut self, kv: &Kv) -> String {
+        let (s, d, r) = match (get_u(kv, "s"), get_i(kv, "d"), get_u(kv, "r")) {
+            (Some(s), Some(d), Some(r)) => (s, d, r),
+            _ => return "bad-op".into(),
+        };
+        if !self.rooms.contains_key(&r) {
+            return "bad-op".into();
+        }
+        let items = match Self::cmut_items(kv, Self::ident_of_site(s), &self.groups) {
+            Some(i) => i,
+            None => return "bad-op".into(),
+        };
+        let case = self.case_id;
+        let mut muts = vec![];
+        for m in &items {
+            let keys = &mut self.keys;
+            match build_room_mutation(m, &self.rooms, &self.groups, &mut |k| key_of(keys, case, k)) {
+                Some(rm) if rm.created.is_empty() && !rm.is_new => muts.push(rm),
+                _ => return "bad-op".into(),
+            }
+        }
+        clock::set(d);
+        let inst = match self.site(s).await {
+            Ok(i) => i,
+            Err(e) => return format!("err:{}", e),
+        };
+        let mut tasks = vec![];
+        for rm in muts {
+            let svc = inst.svc.clone();
+            tasks.push(tokio::spawn(async move { svc.mutate_raw(&rm.q, Some(params(&rm.p))).await }));
+        }
+        let mut res: Vec<String> = vec![];
+        for t in tasks {
+            res.push(match t.await {
+                Ok(Ok(_)) => "ok".into(),
+                Ok(Err(e)) => format!("err:{}", class(&e)),
+                Err(_) => "err:task".into(),
+            });
+        }
+        res.join(",")
     }
 
     pub fn matrix(&mut self, room: &Room, r: u64) -> String {
